@@ -5,6 +5,7 @@ import (
 	"fmt"
 	"runtime"
 	"sync"
+	"sync/atomic"
 	"time"
 
 	"tunnox-core/internal/client/mapping"
@@ -21,6 +22,8 @@ import (
 
 func yield() { runtime.Gosched() }
 
+var streamAlt int // alternates the kind of in-flight I/O of successive stream rigs (behaviours are driven one at a time)
+
 // latchKinds: the components whose Close is the dispose latch.
 var latchKinds = []string{"dispose", "manager", "stream", "storage", "session", "mapping"}
 
@@ -35,8 +38,8 @@ type latchRig struct {
 	kind    string
 	closeFn func()
 	add     func(func() error)
-	ops     []opSpec // ops[0] is the guarded operation of the model's "op" process
-	unblock func()   // unblock pending I/O after close
+	ops     []opSpec      // ops[0] is the guarded operation of the model's "op" process
+	unblock func()        // unblock pending I/O after close
 	io      func() string // the component's own read in flight (stream only); result class
 	feed    func()        // lets its first read step complete
 	pending chan string
@@ -115,21 +118,47 @@ func newLatchRig(kind string, free bool, seed int64) *latchRig {
 			{"ReadAvailable", func() error { _, err := sp.ReadAvailable(8); return err }},
 			{"CloseWithResult", func() error { sp.CloseWithResult(); return nil }},
 		}
-		// the component's own I/O in flight: a ReadPacket whose first Read (type byte) has returned; the
-		// gate sits between that and the next read step of the same packet
-		rd.afterData = func() { r.s.Gate("io.read", nil); r.s.After() }
-		r.io = func() string {
-			res := "error"
-			if r.rec.guard("pendingRead", func() {
-				if _, _, err := sp.ReadPacket(); err == nil {
-					res = "ok"
+		// the component's own I/O in flight, alternately a ReadPacket whose first Read (type byte) has
+		// returned and a WritePacket whose first Write (type byte) is done; the gate sits between that and
+		// the next read/write step of the same packet
+		streamAlt++
+		if streamAlt%2 == 1 {
+			rd.afterData = func() { r.s.Gate("io.read", nil); r.s.After() }
+			r.io = func() string {
+				res := "error"
+				if r.rec.guard("pendingRead", func() {
+					if _, _, err := sp.ReadPacket(); err == nil {
+						res = "ok"
+					}
+				}) {
+					res = "panic"
 				}
-			}) {
-				res = "panic"
+				return res
 			}
-			return res
+			r.feed = func() { rd.inject([]byte{byte(packet.JsonCommand)}) }
+		} else {
+			var first sync.Once
+			var ioGid atomic.Int64
+			wr.afterData = func() {
+				if goid() == ioGid.Load() { // only the in-flight WritePacket, not the model's "op" process
+					first.Do(func() { r.s.Gate("io.read", nil); r.s.After() })
+				}
+			}
+			cmd := &packet.TransferPacket{PacketType: packet.JsonCommand, CommandPacket: &packet.CommandPacket{CommandId: "c", CommandBody: "{}"}}
+			r.io = func() string {
+				res := "error"
+				ioGid.Store(goid())
+				if r.rec.guard("pendingWrite", func() {
+					if _, err := sp.WritePacket(cmd, false, 0); err == nil {
+						res = "ok"
+					}
+				}) {
+					res = "panic"
+				}
+				return res
+			}
+			r.feed = func() {}
 		}
-		r.feed = func() { rd.inject([]byte{byte(packet.JsonCommand)}) }
 		r.unblock = func() { rd.memConn.Close(); wr.memConn.Close() }
 	case "storage":
 		st := memory.New(ctx)
@@ -273,9 +302,9 @@ func (r *latchRig) finish(withOps bool) *fw.Trace {
 			if res == "panic" {
 				res = "error" // already logged as Panic
 			}
-			r.rec.add(fw.Event{"ev": "Op", "op": "pendingRead", "res": res})
+			r.rec.add(fw.Event{"ev": "Op", "op": "pendingIO", "res": res})
 		case <-time.After(opTimeout):
-			r.rec.add(fw.Event{"ev": "Op", "op": "pendingRead", "res": "hang"})
+			r.rec.add(fw.Event{"ev": "Op", "op": "pendingIO", "res": "hang"})
 		}
 	}
 	if withOps {
